@@ -220,7 +220,10 @@ Definition delays_ok (s : script) : Prop := 0 <= ad_delay s /\ 0 <= d_delay s /\
 Inductive rconn := RcOk | RcFail.                 (* connect ok / refused or timed out *)
 Inductive rsend := RsOk | RsFail.                 (* PeerPierceFirewall write ok / fails *)
 Inductive rout := PierceSent | CannotConnectReported | NothingReported.
-Definition responder (server_open : bool) (c : rconn) (w : rsend) : rout :=
+(* existing: an established connection of the requested type with the requesting user already exists (from an earlier
+   ConnectToPeer, from the user connecting to us, or from a request of our own) *)
+Definition responder (existing server_open : bool) (c : rconn) (w : rsend) : rout :=
+  if existing && negb RESPONDER_HANDLES_EVERY_REQUEST then NothingReported else
   match c, w with
   | RcOk, RsOk => PierceSent
   | RcOk, RsFail =>    (* the PeerPierceFirewall write fails: ConnectionWriteError, reported only if the handler covers it *)
